@@ -13,12 +13,12 @@ ID = 'C08'
 LEVEL = 'exploration'
 QUICK_SHARDS = 8
 RULE = ('case = 2-3 requests (kinds of vlib/site.py: cookie+header+status from request data, JSON / HTML error pages for 404, 405, invalid JSON, malformed chunked '
-        'body, oversized body, handler crash, raised response with cookie, multipart form echo, generator body, cookie-then-abort; debug off or on) served on ONE '
+        'body, oversized body, handler crash, raised response with cookie, multipart form echo, generator body, cookie-then-abort, a non-standard status code as text with an own reason phrase (set / raised) against the same code as a number (set / aborted), str pieces streamed in a charset with a stateful encoder (utf-16, utf-32, utf-8-sig) with the pulls of the two bodies interleaved; debug off or on) served on ONE '
         'fresh application, each on its own thread under a deterministic scheduler (vlib/sched.py: every line event inside the ombott package and the handler '
         'module is a yield point; exactly one thread holds the baton; a schedule is a list of [thread, steps]). Schedules: for a fixed set of ordered scenario pairs '
         'EVERY single-preemption schedule (run A for k steps, run B to completion, finish A; all k) exhaustively, after a warm-up of 8-33 sequential requests of one kind the other thread pre-empted at every step while that kind is served once more, for five same-kind pairs also the two-preemption schedules (A k steps, B m steps, A to the end, B to the end) on a stride, plus Hypothesis-generated schedules of 2-40 '
         'segments over 2-3 threads (opcode granularity for a fraction in thorough). Oracle: the complete response of each thread (status line, header multiset, '
-        'body) == the response of the same request served alone on a fresh application; in-handler probes (request.environ identity, path, query string, cookie, '
+        'body) == the response of the same request served alone on a fresh application (for the status-line and header-type kinds: in a fresh interpreter); in-handler probes (request.environ identity, path, query string, cookie, '
         'response header / cookie written earlier in the same handler) always show the own request of the thread. Non-trivial = at least one switch away from a thread '
         'that is between entering the application and start_response; distinct by (requests, debug, schedule).')
 ASSUMPTIONS = ['interleavings are explored at Python line (thorough: partly opcode) granularity under the GIL; C-level atomicity is assumed',
@@ -160,19 +160,28 @@ PAIRS = [('ok', 'ok'), ('ok', 'crash'), ('badjson', 'badjson'), ('form', 'ok'), 
          ('expires', 'resp_copy'), ('sess_mutate', 'sess_mutate'), ('form_fixed', 'form'), ('qs_reassign', 'qs_reassign'), ('urlinfo', 'ok'), ('ok', 'urlinfo'), ('api_404', 'notfound'),
          ('notfound', 'api_404'), ('api_item', 'urlinfo'), ('neg_cl', 'ok'), ('urlbuild', 'urlbuild'), ('urlbuild', 'typed'), ('ok', 'manyheaders'), ('manyheaders', 'ok'), ('auth', 'manyheaders'),
          ('manyheaders', 'manyheaders'), ('emptyform', 'emptybody'), ('emptybody', 'emptyform'), ('emptyform', 'emptyform'), ('emptyform', 'ok'), ('upload_headers', 'upload_headers'),
-         ('upload_headers', 'form'), ('hdr_types', 'hdr_types'), ('hdr_types', 'ok'), ('notmod_noetag', 'notmodified'), ('badstart', 'badstart'), ('badstart', 'form')]
+         ('upload_headers', 'form'), ('hdr_types', 'hdr_types'), ('hdr_types', 'ok'), ('notmod_noetag', 'notmodified'), ('badstart', 'badstart'), ('badstart', 'form'),
+         # a code without a standard phrase: as text with the request's own phrase on one thread (set / raised), the same code as a number on the other (set / aborted)
+         ('reason_text', 'reason_int'), ('reason_raise_text', 'reason_abort_int'), ('reason_text', 'reason_abort_int'), ('reason_raise_text', 'reason_int'),
+         # str pieces streamed in a charset whose encoder keeps state between pieces; the server's pulls of the two bodies interleave
+         ('bom16_gen', 'bom16_gen'), ('bom32_gen', 'bom32_gen'), ('bomsig_gen', 'bomsig_gen'), ('bom16_gen', 'gen')]
+TEXT_STATUS = ('status_str', 'reason_text', 'reason_raise_text')
+INT_STATUS = ('status_int', 'reason_int', 'reason_abort_int')
+ALL_KINDS = S.KINDS + S.KINDS_THREADS
 
 def _reqs():
-    anyk = st.lists(st.tuples(st.sampled_from(S.KINDS), st.integers(0, 30)).map(list), min_size=2, max_size=3)
+    anyk = st.lists(st.tuples(st.sampled_from(ALL_KINDS), st.integers(0, 30)).map(list), min_size=2, max_size=3)
     # half of the cases: all threads serve the same kind of request with different data (they meet in the same code)
-    same = st.tuples(st.sampled_from(S.KINDS), st.lists(st.integers(0, 30), min_size=2, max_size=3, unique=True)).map(lambda t: [[t[0], n] for n in t[1]])
+    same = st.tuples(st.sampled_from(ALL_KINDS), st.lists(st.integers(0, 30), min_size=2, max_size=3, unique=True)).map(lambda t: [[t[0], n] for n in t[1]])
     return st.one_of(anyk, same)
 
 
-FRESH_KINDS = ('hdr_types',)
+# (a status line / header value may be coloured by what the process saw before: the reference must not come from this process)
+FRESH_KINDS = ('hdr_types',) + TEXT_STATUS + INT_STATUS
 PAIRS_CUSTOM = [('badjson', 'badjson'), ('badmultipart', 'badjson'), ('oversized', 'oversized'), ('badchunk', 'badjson'), ('badjson', 'badchunk'), ('bigform', 'oversized')]
 WARM1 = [('ok', 'manyheaders'), ('auth', 'manyheaders'), ('urlinfo', 'manyheaders'), ('manyheaders', 'manyheaders'), ('longquery', 'manyheaders')]
-PAIRS2 = [('form_fixed', 'form_fixed'), ('chunked_ok', 'chunked_ok'), ('rex', 'rex'), ('expires', 'expires'), ('qs_reassign', 'qs_reassign')]
+PAIRS2 = [('form_fixed', 'form_fixed'), ('chunked_ok', 'chunked_ok'), ('rex', 'rex'), ('expires', 'expires'), ('qs_reassign', 'qs_reassign'), ('bom16_gen', 'bom16_gen')]
+STRIDE2_FACTOR = {('bom16_gen', 'bom16_gen'): 3}          # (long streamed bodies: a coarser grid keeps the two-preemption schedules affordable)
 # scenario pairs served after a warm-up of w sequential requests of the first kind (what earlier traffic taught the application must not matter)
 _WK = ['crash', 'raised', 'gen', 'cookie_then_abort']          # handlers registered one after the other (neighbours in whatever the router keeps per node)
 WARM = [(a, b) for a in _WK for b in _WK if a != b] + [('gen', 'ok'), ('ok', 'gen')]
@@ -204,6 +213,10 @@ def run(ctx):
             for k in range(0, ya + 1, stride):
                 ctx.guarded(check_case, dict(base, schedule=[[0, k], [1, BIG], [0, BIG]]))
             ctx.count('bound1_scenarios')
+            if a in TEXT_STATUS and b in INT_STATUS:
+                ctx.count('text_status_vs_same_code_as_int_scenarios')
+            if a.startswith('bom') or b.startswith('bom'):
+                ctx.count('stateful_charset_stream_scenarios')
             ctx.count('bound1_schedules', ya // stride + 1)
     # error kinds on an application with a configured errors_map (HTML page on one thread, JSON document on the other, and the reverse)
     for pi, (a, b) in enumerate(PAIRS_CUSTOM):
@@ -243,11 +256,14 @@ def run(ctx):
         base = {'reqs': [[a, 1], [b, 2]], 'debug': False}
         ya = run_case(ctx, dict(base, schedule=[[0, BIG]]), count_only=True)[0]
         yb = run_case(ctx, dict(base, schedule=[[1, BIG]]), count_only=True)[1]
-        for k in range(1, ya, stride2):
-            for m in range(1, yb, stride2):
+        sp = stride2 * STRIDE2_FACTOR.get((a, b), 1)
+        for k in range(1, ya, sp):
+            for m in range(1, yb, sp):
                 ctx.guarded(check_case, dict(base, schedule=[[0, k], [1, m], [0, BIG], [1, BIG]]))
         ctx.count('bound2_scenarios')
-        ctx.count('bound2_schedules', len(range(1, ya, stride2)) * len(range(1, yb, stride2)))
+        ctx.count('bound2_schedules', len(range(1, ya, sp)) * len(range(1, yb, sp)))
+        if a.startswith('bom'):
+            ctx.count('stateful_charset_stream_two_preemption_scenarios')
     n = 250 if ctx.tier == 'quick' else 4000
     ctx.hyp(CASE, check_case, n, shrink=(ctx.tier == 'thorough'))
     if ctx.tier == 'thorough':
